@@ -62,16 +62,32 @@ Max2(a, b) == IF a > b THEN a ELSE b
 Min2(a, b) == IF a < b THEN a ELSE b
 SeqToSet(s) == {s[i] : i \in 1..Len(s)}
 
-(* Routing (C07 in small): the root route cfg.root and its child routes cfg.routes, each   *)
-(* [rk (route key), sel, cont, recv, gw, gi, ri, mute, active], all grouping by [g].  An   *)
-(* alert goes, in order, to every child that matches until one of them does not continue; *)
-(* to the root if no child matches.  One aggregation group per (route, value of g).       *)
+(* Routing (C07 in small): the root route cfg.root and the other routes cfg.routes, listed  *)
+(* in configuration order (pre-order), each [parent (0 = root), rk (route key), sel, cont,  *)
+(* recv, gby, gw, gi, ri, mute, active].  A route whose matchers hold hands the alert to    *)
+(* its children in order, stopping after the first child that matches unless that child has *)
+(* continue set, and is itself chosen only if no child matched.  Receiver, group_by and the *)
+(* timers are inherited from the parent unless set (recv / gby "" and timers -1 = not set); *)
+(* mute and active intervals are the route's own.  One aggregation group per chosen route   *)
+(* and value of its group labels.                                                          *)
+\* (everything below is derived once per configuration, Derive(c), and looked up from cfg.drv)
+RECURSIVE RtC(_, _)
+RtC(c, j) == IF j = 0 THEN c.root
+            ELSE LET r == c.routes[j]
+                     p == RtC(c, r.parent)
+                 IN [r EXCEPT !.recv = IF r.recv = "" THEN p.recv ELSE r.recv,
+                              !.gby = IF r.gby = "" THEN p.gby ELSE r.gby,
+                              !.gw = IF r.gw < 0 THEN p.gw ELSE r.gw,
+                              !.gi = IF r.gi < 0 THEN p.gi ELSE r.gi,
+                              !.ri = IF r.ri < 0 THEN p.ri ELSE r.ri]
+RECURSIVE MatchRC(_, _, _)
+MatchRC(c, j, a) ==
+  LET m == {k \in {x \in 1..Len(c.routes) : c.routes[x].parent = j} : Sel(c.routes[k].sel, a)}
+      reached == {k \in m : ~\E k2 \in m : k2 < k /\ ~c.routes[k2].cont}
+  IN IF reached = {} THEN {j} ELSE UNION {MatchRC(c, k, a) : k \in reached}
 NRoutes == Len(cfg.routes)
-Rt(j) == IF j = 0 THEN cfg.root ELSE cfg.routes[j]
-Chosen(a) ==
-  LET m == {j \in 1..NRoutes : Sel(cfg.routes[j].sel, a)}
-      c == {j \in m : ~\E k \in m : k < j /\ ~cfg.routes[k].cont}
-  IN IF c = {} THEN {0} ELSE c
+Rt(j) == cfg.drv.rts[j]
+Chosen(a) == cfg.drv.chosen[a]
 \* group labels of an alert under a route's group_by: [g], [] (one group) or ['...'] (all labels),
 \* printed as model.LabelSet prints them (the group key is "<route key>:<group labels>")
 AllLbl == [ A1 |-> "{a=\"x\", alertname=\"X\", g=\"1\", sev=\"warn\"}",
@@ -81,10 +97,21 @@ AllLbl == [ A1 |-> "{a=\"x\", alertname=\"X\", g=\"1\", sev=\"warn\"}",
 GL(gby, a) == CASE gby = "g"    -> "{g=\"" \o Lbl[a].g \o "\"}"
                 [] gby = "none" -> "{}"
                 [] gby = "all"  -> AllLbl[a]
-GK(j, a) == Rt(j).rk \o ":" \o GL(Rt(j).gby, a)
-GKeys(a) == {GK(j, a) : j \in Chosen(a)}
-AllGK == {GK(j, a) : j \in 0..NRoutes, a \in Alerts}
-RouteOfGk(gk) == CHOOSE j \in 0..NRoutes : \E a \in Alerts : GK(j, a) = gk
+GKR(r, a) == r.rk \o ":" \o GL(r.gby, a)
+GK(j, a) == GKR(Rt(j), a)
+Derive(c) ==
+  LET n == Len(c.routes)
+      rts == [j \in 0..n |-> RtC(c, j)]
+      pairs == {<<GKR(rts[j], a), j>> : j \in 0..n, a \in Alerts}
+  IN [root |-> c.root, routes |-> c.routes, integs |-> c.integs, inhibit |-> c.inhibit, windows |-> c.windows,
+      wait |-> c.wait, maxwait |-> c.maxwait, agc |-> c.agc,
+      drv |-> [rts |-> rts,
+               chosen |-> [a \in Alerts |-> MatchRC(c, 0, a)],
+               gkj |-> [gk \in {p[1] : p \in pairs} |-> (CHOOSE p \in pairs : p[1] = gk)[2]],
+               gkeys |-> [a \in Alerts |-> {GKR(rts[j], a) : j \in MatchRC(c, 0, a)}]]]
+GKeys(a) == cfg.drv.gkeys[a]
+AllGK == DOMAIN cfg.drv.gkj
+RouteOfGk(gk) == cfg.drv.gkj[gk]
 Opt(gk) == Rt(RouteOfGk(gk))
 LblOfGk(gk) == CHOOSE l \in {GL(Opt(gk).gby, a) : a \in Alerts} : gk = Opt(gk).rk \o ":" \o l
 Members(gk) == {a \in Alerts : gk \in GKeys(a)}
@@ -159,7 +186,7 @@ Entry(as, a)   == as[CHOOSE i \in 1..Len(as) : as[i].l = a]
 RootOnly(gw, gi, ri) == [rk |-> "{}", sel |-> "ALL", cont |-> FALSE, recv |-> "r1", gby |-> "g", gw |-> gw, gi |-> gi, ri |-> ri, mute |-> << >>, active |-> << >>]
 \* the delivery targets of the alerts: <<alert, group key, integration of the group's receiver>>
 EligDom == UNION {UNION {{<<a, gk, i>> : i \in IntegsOf(gk)} : gk \in GKeys(a)} : a \in Alerts}
-ObsInit == /\ now = 0 /\ cfg = [root |-> RootOnly(0, 1, 1), routes |-> << >>, integs |-> <<[recv |-> "r1", name |-> "webhook/0", sr |-> TRUE]>>, inhibit |-> FALSE, windows |-> << >>, wait |-> 0, maxwait |-> 0, agc |-> 0]
+ObsInit == /\ now = 0 /\ cfg = Derive([root |-> RootOnly(0, 1, 1), routes |-> << >>, integs |-> <<[recv |-> "r1", name |-> "webhook/0", sr |-> TRUE]>>, inhibit |-> FALSE, windows |-> << >>, wait |-> 0, maxwait |-> 0, agc |-> 0])
            /\ ver = << >> /\ sil = << >> /\ last = << >> /\ brk = << >> /\ fl = << >> /\ cancd = [seen |-> {}, dead |-> << >>, deadgk |-> {}, refl |-> {}, ing |-> << >>, mby |-> << >>, lastReload |-> 0 - 1]
            /\ elig = << >> /\ chk = {}
 
@@ -211,7 +238,7 @@ C05_Deadline ==
 
 (* --- environment events ------------------------------------------------ *)
 Cfg(c) ==
-  /\ cfg' = c /\ now' = 0 /\ ver' = << >> /\ sil' = << >> /\ last' = << >> /\ brk' = << >> /\ fl' = << >> /\ cancd' = [seen |-> {}, dead |-> << >>, deadgk |-> {}, refl |-> {}, ing |-> << >>, mby |-> << >>, lastReload |-> 0 - 1]
+  /\ cfg' = Derive(c) /\ now' = 0 /\ ver' = << >> /\ sil' = << >> /\ last' = << >> /\ brk' = << >> /\ fl' = << >> /\ cancd' = [seen |-> {}, dead |-> << >>, deadgk |-> {}, refl |-> {}, ing |-> << >>, mby |-> << >>, lastReload |-> 0 - 1]
   /\ elig' = << >> /\ chk' = {}
 
 Ingest(a, v) ==
